@@ -8,6 +8,7 @@ import (
 	"sync/atomic"
 	"time"
 
+	"go.sia.tech/core/consensus"
 	"go.sia.tech/core/gateway"
 	"go.sia.tech/core/types"
 	"go.sia.tech/coreutils/syncer"
@@ -229,10 +230,24 @@ func runInstantSync(r *mon.Run, cc c11Case) {
 	t := chainlab.NewTree(env, rng)
 	prof := chainlab.Profile{MaxTxns: 3}
 	hTip := p2plab.GrowMixed(t, t.Root, trunk, 2, prof)
-	// checkpoint: a v2 block above the require height, a few blocks below the tip
-	lo := max(int(p.Require)+1, 3)
-	cpH := lo + rng.IntN(max(1, int(hTip.Height)-2-lo))
-	cp := hTip.Ancestor(uint64(cpH))
+	// checkpoint: a v2 block above the require height, 1..9 blocks below the
+	// honest tip (larger gaps run into an honest-only liveness problem that C12
+	// reports on its own: a full node drops a freshly bootstrapped peer whose
+	// checkpoint height is not in its history sample)
+	gap := 1 + rng.IntN(9)
+	largeGap := false
+	if rng.IntN(4) == 0 {
+		gap = []int{10, 12, 13, 14, 20}[rng.IntN(5)]
+		largeGap = true
+		if trunk < gap+int(p.Require)+3 {
+			hTip = p2plab.GrowMixed(t, hTip, gap+int(p.Require)+3-trunk, 2, prof)
+		}
+	}
+	if int(hTip.Height)-gap <= int(p.Require) {
+		gap = int(hTip.Height) - int(p.Require) - 1
+		largeGap = false
+	}
+	cp := hTip.Ancestor(hTip.Height - uint64(max(gap, 1)))
 	if cp == nil || cp.Block.V2 == nil || cp.Parent == nil || cp.Height <= p.Require {
 		r.Count("cases_skipped:no checkpoint candidate", 1)
 		return
@@ -247,7 +262,7 @@ func runInstantSync(r *mon.Run, cc c11Case) {
 	if withH {
 		var err error
 		h, err = p2plab.NewNode(p2plab.NodeOpts{Name: "honest", IP: p2plab.HonestIP(slot, 1), Tree: t, Tip: hTip, KeepLog: true,
-			SyncInterval: 75 * time.Millisecond, DiscoveryInterval: time.Hour, RPCTimeout: 2 * time.Second})
+			SyncInterval: 400 * time.Millisecond, DiscoveryInterval: time.Hour, RPCTimeout: 2 * time.Second})
 		if err != nil {
 			r.Inconclusive(fmt.Sprintf("C11 case %d: cannot build honest peer: %v", cc.Stream, err))
 			return
@@ -270,15 +285,26 @@ func runInstantSync(r *mon.Run, cc c11Case) {
 			peers[0], peers[1] = peers[1], peers[0]
 		}
 	}
-	ctx, cancel := context.WithTimeout(context.Background(), 40*time.Second)
-	if !withH {
+	// like any caller with several bootstrap peers, retry a failed retrieval: the
+	// ephemeral client inside RetrieveCheckpoint never services inbound streams,
+	// so a request the serving node opens towards it at the wrong moment blocks
+	// its mux read loop until the RPC times out (honest-only; counted, not judged)
+	var st consensus.State
+	var blk types.Block
+	var rerr error
+	for attempt := 0; attempt < 3; attempt++ {
+		d := 45 * time.Second
+		if !withH {
+			d = 6 * time.Second
+		}
+		ctx, cancel := context.WithTimeout(context.Background(), d)
+		st, blk, rerr = syncer.RetrieveCheckpoint(ctx, peers, cp.L.State.Index, env.Net, env.Genesis.ID())
 		cancel()
-		ctx, cancel = context.WithTimeout(context.Background(), 6*time.Second)
+		if rerr == nil || !withH {
+			break
+		}
+		r.Count("retrieve_checkpoint_retries_with_honest_peer_listed", 1)
 	}
-	var cs0 any
-	_ = cs0
-	st, blk, rerr := syncer.RetrieveCheckpoint(ctx, peers, cp.L.State.Index, env.Net, env.Genesis.ID())
-	cancel()
 	r.Eval()
 	delivered := b1.Counter("faulted:SendCheckpoint") > 0
 	detail := map[string]any{"peers": peers, "byzantine_counters": b1.Counters(), "retrieve_error": fmt.Sprint(rerr), "tree": summarize(t)}
@@ -294,6 +320,9 @@ func runInstantSync(r *mon.Run, cc c11Case) {
 	}
 	if rerr == nil {
 		r.Count("instant_sync_checkpoints_retrieved", 1)
+		if largeGap {
+			r.Count("instant_sync_cases_with_checkpoint_gap_ge_10", 1)
+		}
 		if chainlab.StateBytes(st) != chainlab.StateBytes(cp.Parent.L.State) || encodeBlock(blk) != encodeBlock(cp.Block) {
 			r.Violation("instant-sync-accepted-bogus-checkpoint:"+cc.Fault, "RetrieveCheckpoint returned a (state, block) pair that is not the requested block with its true parent state", cc, detail)
 			closeAll(r, nodes)
@@ -387,7 +416,12 @@ func runInstantSync(r *mon.Run, cc c11Case) {
 			r.Count("cases_with_honest_peer_reaching_honest_tip", 1)
 			r.Count("instant_sync_victims_synced_to_honest_tip", 1)
 		} else {
-			r.Violation("stall:after-instant-sync:"+cc.Fault, "a victim initialised at a retrieved checkpoint did not reach the honest tip within the bound", cc, detail)
+			sig := "stall:after-instant-sync:" + cc.Fault
+			if largeGap {
+				sig = "stall:after-instant-sync:checkpoint-gap-not-in-peer-history"
+			}
+			detail["checkpoint_gap"] = gap
+			r.Violation(sig, "a victim initialised at a retrieved checkpoint did not reach the honest tip within the bound", cc, detail)
 		}
 	}
 	for _, br := range v.PS.Bans() {
